@@ -15,8 +15,10 @@ import (
 	"regexp"
 	"strconv"
 	"strings"
+	"sync"
 	"syscall"
 	"testing"
+	"time"
 
 	"pgregory.net/rapid"
 )
@@ -32,12 +34,14 @@ type CrashScenario struct {
 }
 
 type childSpec struct {
+	Conc   bool   `json:"conc"` // two checks whose names map to the same fail-file name save at the same time
 	Fresh  bool   `json:"fresh"`
 	Name   string `json:"name"`
 	Lines  int    `json:"lines"`
 	LineN  int    `json:"lineN"`
 	Words  int    `json:"words"`
 	KillAt int    `json:"killAt"`
+	Second bool   `json:"second"` // the second saver's output (lines of 'y')
 }
 
 var reStamp = regexp.MustCompile(`\d{4}/\d\d/\d\d \d\d:\d\d:\d\d\.\d{6}`)
@@ -71,6 +75,10 @@ func ChildMain(t *testing.T, specJSON string) {
 		_ = os.WriteFile("fresh.out", []byte(strings.Join(fs, " ")), 0o644)
 		return
 	}
+	if cs.Conc {
+		concurrentSavers(cs)
+		return
+	}
 	gates := 0
 	rapid.VerifSetGate(func(point string) {
 		if !strings.HasPrefix(point, "save.") {
@@ -84,7 +92,11 @@ func ChildMain(t *testing.T, specJSON string) {
 		}
 	})
 	setFlags(map[string]string{"checks": "1", "seed": "12345", "shrinktime": "0s"})
-	line := strings.Repeat("x", cs.LineN)
+	ch := "x"
+	if cs.Second {
+		ch = "y"
+	}
+	line := strings.Repeat(ch, cs.LineN)
 	tb := NewRecTB(cs.Name, nil)
 	tb.Run(func() {
 		rapid.Check(tb, func(rt *rapid.T) {
@@ -98,6 +110,50 @@ func ChildMain(t *testing.T, specJSON string) {
 		})
 	})
 	_ = os.WriteFile("gates.total", []byte(strconv.Itoa(gates)), 0o644)
+}
+
+// saverProp: the failing property of a saver (B logs other lines and draws more than A, so that a mixture of the two files shows)
+func saverProp(cs childSpec, second bool) func(*rapid.T) {
+	lines, lineN, words, ch := cs.Lines, cs.LineN, cs.Words, "x"
+	if second {
+		lines, lineN, words, ch = cs.Lines/2+1, cs.LineN+3, cs.Words+2, "y"
+	}
+	line := strings.Repeat(ch, lineN)
+	return func(rt *rapid.T) {
+		for i := 0; i < lines; i++ {
+			rt.Log(line)
+		}
+		for i := 0; i < words; i++ {
+			_ = rapid.Bool().Draw(rt, "b")
+		}
+		rt.Fatalf("always")
+	}
+}
+
+func saverNames(name string) (string, string) { return name + "/a", name + "_a" } // distinct test names, one fail-file name
+
+// concurrentSavers: two failing checks run at the same time; their saves meet at every write (rendezvous gate)
+func concurrentSavers(cs childSpec) {
+	var b barrier
+	b.every = true
+	rapid.VerifSetGate(func(point string) {
+		if point == "save.write" || point == "save.create" || point == "save.rename" {
+			b.mu.Lock()
+			b.rendezvousFor(2 * time.Millisecond)
+		}
+	})
+	setFlags(map[string]string{"checks": "1", "seed": "12345", "shrinktime": "0s"})
+	na, nb := saverNames(cs.Name)
+	var wg sync.WaitGroup
+	for i, n := range []string{na, nb} {
+		wg.Add(1)
+		go func(i int, n string) {
+			defer wg.Done()
+			tb := NewRecTB(n, nil)
+			tb.Run(func() { rapid.Check(tb, saverProp(cs, i == 1)) })
+		}(i, n)
+	}
+	wg.Wait()
 }
 
 func runChild(dir string, cs childSpec) (killed bool, gate string, total int, err error) {
@@ -199,6 +255,39 @@ func crashMode(t *testing.T, rec *Recorder) {
 				_ = os.Chdir(orig)
 				rec.Emit("crash.resave", F{"k": k, "err": fmt.Sprint(err2), "files": fs2})
 			}
+			_ = os.RemoveAll(d)
+		}
+		// two checks whose names map to the same fail-file name fail and save at the same time (three rounds: the file name has a one-second time stamp)
+		na, nb := saverNames(sc.Name)
+		refs := []string{}
+		for i, n := range []string{na, nb} {
+			d := filepath.Join(base, fmt.Sprintf("cref%d", i))
+			_ = os.MkdirAll(d, 0o775)
+			one := cs
+			one.KillAt, one.Name = 0, n
+			if i == 1 {
+				one.Lines, one.LineN, one.Words = cs.Lines/2+1, cs.LineN+3, cs.Words+2
+				one.Second = true
+			}
+			_, _, _, _ = runChild(d, one)
+			_ = os.Chdir(d)
+			for _, f := range snapshotDir(n) {
+				if m := f.(F); m["glob"] == true {
+					refs = append(refs, m["ndigest"].(string))
+				}
+			}
+			_ = os.Chdir(orig)
+		}
+		for round := 0; round < 3; round++ {
+			d := filepath.Join(base, fmt.Sprintf("conc%d", round))
+			_ = os.MkdirAll(d, 0o775)
+			cc := cs
+			cc.KillAt, cc.Conc = 0, true
+			_, _, _, errc := runChild(d, cc)
+			_ = os.Chdir(d)
+			fs := snapshotDir(na)
+			_ = os.Chdir(orig)
+			rec.Emit("crash.conc", F{"round": round, "err": fmt.Sprint(errc), "files": fs, "refs": refs})
 			_ = os.RemoveAll(d)
 		}
 		rec.Emit("scen.end", F{"id": sc.ID})
